@@ -20,6 +20,7 @@ pub open spec fn ew_idx(s: Seq<char>, r: char) -> bool { s.len() >= 2 && s[s.len
 #[verifier::external_body] pub fn ends_with_x(s: &String) -> (r: bool) ensures r == ew_idx(s@, 'X') { s.ends_with(",X") }
 #[verifier::external_body] pub fn ends_with_y(s: &String) -> (r: bool) ensures r == ew_idx(s@, 'Y') { s.ends_with(",Y") }
 #[verifier::external_body] pub fn is_imm0(s: &String) -> (r: bool) ensures r == (s@ == "#0"@) { s == "#0" }
+#[verifier::external_body] pub fn is_with_suffix(a: &String, b: &String, lit: &str) -> (r: bool) ensures r == (a@ == b@ + lit@) { a.strip_suffix(lit) == Some(b.as_str()) }
 // the multipeek look-ahead: arbitrary lines (sound over-approximation of iter.peek())
 pub struct Peek { pub k: u8 }
 impl Peek { #[verifier::external_body] pub fn peek(&mut self) -> (r: Option<&AsmLine>) { unimplemented!() } }
@@ -33,10 +34,10 @@ pub open spec fn known(k: Option<String>, t: Seq<char>) -> bool { k is Some && k
 
 // ---- oracle for the pair rules: when dropping an instruction of an adjacent pair is invisible (A-isa) ------------------------
 // second instruction redundant given the first
-pub open spec fn rm2_sound(a: Option<&AsmLine>, b: Option<&AsmLine>) -> bool {
+pub open spec fn rm2_sound(a: Option<&AsmLine>, b: Option<&AsmLine>, flags: FlagsState) -> bool {
     use_all_mnemonics() && (
        (mm(a, AsmMnemonic::JMP) && mm(b, AsmMnemonic::JMP))                                   // unreachable second jump
-    || (mm(a, AsmMnemonic::STA) && mm(b, AsmMnemonic::LDA) && same_op(a, b))                    // A already holds the stored cell
+    || (mm(a, AsmMnemonic::STA) && mm(b, AsmMnemonic::LDA) && same_op(a, b) && flags == FlagsState::A)  // A already holds the stored cell, and N/Z already describe A (the load sets them)
     || (mm(a, AsmMnemonic::LDA) && mm(b, AsmMnemonic::STA) && same_op(a, b))                    // the cell already holds A
     || (mm(a, AsmMnemonic::LDY) && mm(b, AsmMnemonic::STY) && same_op(a, b))
     || (mm(a, AsmMnemonic::LDX) && mm(b, AsmMnemonic::STX) && same_op(a, b))
@@ -113,6 +114,7 @@ def r15(c):
     c.sub(r"(\w+(?:\.\w+)*)\.ends_with\(\",Y\"\)", r"ends_with_y(&\1)", "R15 ends_with(\",Y\")")
     c.sub(r"(\w+(?:\.\w+)*) == \"#0\"", r"is_imm0(&\1)", "R15 == \"#0\"")
     c.sub(r"\b(\w+)\.eq\(&(\w+(?:\.\w+)*)\)", r"(*\1 == \2)", "R15 a.eq(&b) -> *a == b")
+    c.sub(r"(\w+(?:\.\w+)*)\.strip_suffix\((\"[^\"]*\")\) == Some\((\w+(?:\.\w+)*)\.as_str\(\)\)", r"is_with_suffix(&\1, &\3, \2)", "R15 a.strip_suffix(lit) == Some(b.as_str()) -> a == b + lit", expect=(0, 4))
     common.r15_contains_lit(c)
     c.sub(r"starts_with_hash\(&(r|v)\)", r"starts_with_hash(\1)", "R15 (already a reference)")
     c.sub(r"ends_with_([xy])\(&(r|v)\)", r"ends_with_\1(\2)", "R15 (already a reference)")
@@ -172,15 +174,15 @@ def build(repo):
     b.sub(r"\biter\.peek\(\)", "iter.peek()", "R8 iter is the look-ahead shim")
     pair = """
 // R8: block A of optimize(), verbatim; free variables became parameters / results
-pub fn pair_rules(first: Option<&AsmLine>, second: Option<&AsmLine>, accumulator: Option<String>, x_register: Option<String>, y_register: Option<String>) -> (r: (bool, bool, bool, bool))
+pub fn pair_rules(first: Option<&AsmLine>, second: Option<&AsmLine>, accumulator: Option<String>, x_register: Option<String>, y_register: Option<String>, flags: FlagsState) -> (r: (bool, bool, bool, bool))
     requires is_ins(first), is_ins(second),
     ensures
         // r = (remove_both, remove_first, remove_second, swap_both)
         r.2 ==> !ins(second).protected, //@ C18,C02:opt-rm2-unprotected
         r.1 ==> !ins(first).protected, //@ C18,C02:opt-rm1-unprotected
         r.0 ==> !ins(second).protected && (!ins(first).protected || is_compare(ins(first).mnemonic)), //@ C18,C02:opt-both-unprotected
-        r.2 ==> rm2_sound(first, second), //@ C02:opt-rm2-sound
-        r.1 ==> rm1_sound(first, second), //@ C02:opt-rm1-sound
+        r.2 ==> rm2_sound(first, second, flags), //@ C02,C17:opt-rm2-sound
+        r.1 ==> rm1_sound(first, second), //@ C02,C17:opt-rm1-sound
         r.0 ==> both_sound(first, second, accumulator, x_register, y_register), //@ C02:opt-both-sound
         r.3 ==> mm(first, AsmMnemonic::LDA) && (mm(second, AsmMnemonic::SEC) || mm(second, AsmMnemonic::CLC)), //@ C02,C18:opt-swap-only-lda-carry
 {
@@ -216,7 +218,7 @@ pub fn knowledge_transfer(second: Option<&AsmLine>, iter: &mut Peek, accumulator
             (r.0 is None || sw_hash(r.0->Some_0@) || (ins(second).mnemonic == AsmMnemonic::STA && known(r.0, ins(second).dasm_operand@)))
             && (r.1 is None || sw_hash(r.1->Some_0@) || (ins(second).mnemonic == AsmMnemonic::STX && known(r.1, ins(second).dasm_operand@)))
             && (r.2 is None || sw_hash(r.2->Some_0@) || (ins(second).mnemonic == AsmMnemonic::STY && known(r.2, ins(second).dasm_operand@)))), //@ C02,C17:xfer-store-forgets-aliases
-        ((!remove_second && !remove_both) && r.3 == FlagsState::A && r.0 is Some ==> nz_is_a(ins(second).mnemonic, ins(second).dasm_operand@) || (flags == FlagsState::A && nz_kept(ins(second).mnemonic))), //@ C02:xfer-flags-a
+        ((!remove_second && !remove_both) && r.3 == FlagsState::A ==> nz_is_a(ins(second).mnemonic, ins(second).dasm_operand@) || (flags == FlagsState::A && nz_kept(ins(second).mnemonic))), //@ C02:xfer-flags-a
         // the same for X and Y: TXA keeps a belief about X true (N/Z of the value copied), TYA / PLA / ADC ... do not
         ((!remove_second && !remove_both) && r.3 == FlagsState::X && r.1 is Some ==> nz_is_x(ins(second).mnemonic) || (flags == FlagsState::X && (nz_untouched(ins(second).mnemonic) || ins(second).mnemonic == AsmMnemonic::TXA))), //@ C02:xfer-flags-x
         ((!remove_second && !remove_both) && r.3 == FlagsState::Y && r.2 is Some ==> nz_is_y(ins(second).mnemonic) || (flags == FlagsState::Y && (nz_untouched(ins(second).mnemonic) || ins(second).mnemonic == AsmMnemonic::TYA))), //@ C02:xfer-flags-y
@@ -238,18 +240,21 @@ pub fn knowledge_transfer(second: Option<&AsmLine>, iter: &mut Peek, accumulator
     resync = """
 // R8: block C of optimize(), verbatim: after both instructions of a pair were removed, `first` is the next instruction of the flow.  It has NOT been
 // through block B, so whatever is kept of the knowledge must already account for what `first` does (A-isa), exactly as block B would.
-pub fn resync_after_remove_both(first: Option<&AsmLine>, accumulator: Option<String>, x_register: Option<String>, y_register: Option<String>) -> (r: (Option<String>, Option<String>, Option<String>))
+pub fn resync_after_remove_both(first: Option<&AsmLine>, accumulator: Option<String>, x_register: Option<String>, y_register: Option<String>, flags: FlagsState) -> (r: (Option<String>, Option<String>, Option<String>, FlagsState))
     requires is_ins(first),
     ensures
         r.0 is None || (mm(first, AsmMnemonic::LDA) && known(r.0, ins(first).dasm_operand@)) || (r.0 == accumulator && keeps(first, r.0, AsmMnemonic::STA) && !writes_a(ins(first).mnemonic, ins(first).dasm_operand@)), //@ C02:resync-a-sound
         r.1 is None || (mm(first, AsmMnemonic::LDX) && known(r.1, ins(first).dasm_operand@)) || (r.1 == x_register && keeps(first, r.1, AsmMnemonic::STX) && !writes_x(ins(first).mnemonic)), //@ C02:resync-x-sound
         r.2 is None || (mm(first, AsmMnemonic::LDY) && known(r.2, ins(first).dasm_operand@)) || (r.2 == y_register && keeps(first, r.2, AsmMnemonic::STY) && !writes_y(ins(first).mnemonic)), //@ C02:resync-y-sound
+        // the two removed instructions may be the ones the flags were believed to come from: afterwards the belief comes from `first` alone
+        r.3 == FlagsState::Unknown || (r.3 == FlagsState::A && mm(first, AsmMnemonic::LDA)) || (r.3 == FlagsState::X && mm(first, AsmMnemonic::LDX)) || (r.3 == FlagsState::Y && mm(first, AsmMnemonic::LDY)), //@ C02:resync-flags-from-first-alone
 {
+    let mut flags = flags;
     let mut accumulator = accumulator;
     let mut x_register = x_register;
     let mut y_register = y_register;
 %s
-    (accumulator, x_register, y_register)
+    (accumulator, x_register, y_register, flags)
 }
 """ % c.text
     text = common.PRELUDE + common.header_comment(NAME, cuts) + "verus! {\n" + types + fl.text + "\n" + SPECS + common.STR_CONTAINS_SHIM + pair + xfer + resync + common.CANARY + "\n} // verus!\n"
